@@ -8,6 +8,7 @@ TRUST = ("Trusted base: CrossHair 0.0.110's symbolic model of CPython str/int/li
          "per query in the evidence file, nothing is claimed outside them.")
 TECH = "bounded symbolic execution of the real Python functions (CrossHair proxies + z3), path tree exhausted per query; counterexamples replayed natively"
 CLAIMED = {
+    "C10": ("6 C10", "Solver part: every field type's validated() with a symbolic cell (up to 3 characters) where the C callee produces every documented outcome (exception, any finite value, NaN / sNaN / +-Infinity / -0 / extreme exponents) raises nothing but FieldValueError, in two (thorough: four) formats; the exit-code mapping of applications.main for every exception kind. Hostile CID cells (one at a time and length x example pairwise, ~40000 CIDs), hostile data cells through the real callees and truncated / bit-flipped ODS and XLSX containers are ENUMERATED natively (tokenizer, _decimal, zlib, xlrd are C) - that part is exploration, stated as such."),
     "C09": ("6 C09", "Three sub-claims decided by the solver: row dispatch of Cid.read for every ASCII marker cell up to 2-3 characters, row numbering for every pattern of empty / comment / field / unknown rows (recorded row numbers and the row named by the rejection); fields.validated_field_name for every text up to 2-3 characters over a 10-letter alphabet (solver-enumerated); length admissibility of add_field_format_row for all limits of 10 range shapes x 3 formats. The defect catalogue (33 defects x 2 positions) and meaning-preserving rewrites are exercised natively on a concrete base CID."),
     "C16": ("6 C16", "Sheet selection, string / boolean dispatch and padding of excel_rows decided over a fake workbook (S-XLRD) for every requested sheet, every string cell up to 3 characters and all boolean values. Number, date and time rendering and the XlsxRowWriter round trip are float / C territory and are exercised natively on sample workbooks made by xlsxwriter (stated as such; not a solver verdict)."),
     "C17": ("6 C17", "Relational query per field type: the same declaration loaded through the real CID loader under Format delimited / ods / excel gives the same verdict and value for every cell (unbounded or bounded as stated) and every parser outcome (S-INT / S-DEC / S-STRP), except the documented Excel date suffix. Storage of one CID and one table as csv / ods / xlsx files is compared natively."),
